@@ -22,3 +22,10 @@ def run(ctx, rep):
     order.rule_colorder_table(mod, rep)
     from ..rules import more2
     more2.rule_stack_pop(mod, rep)
+    from ..rules import more3
+    more3.rule_snode_shape(mod, rep)
+    from ..rules import more4
+    more4.rule_slot_rectangle(mod, rep)
+    more4.rule_relax_bound(mod, rep)
+    from ..rules import more4
+    more4.rule_marker_kind(mod, rep)
